@@ -200,6 +200,20 @@ def evalArgs {Val : Type} (ev : Memo Val → Nat → Except Err (Memo Val × Val
       | .error e => .error e
       | .ok (m2, rs, w2) => .ok (m2, r :: rs, ⟨w1.bodies + w2.bodies, w1.calls + w2.calls⟩)
 
+/-- `if default is not _NO_DEFAULT: memo[key] = default` -/
+def storeDefault {Val : Type} (G : Graph Val) (m : Memo Val) (v : Nat) : Memo Val :=
+  match G.default with
+  | some d => m.set v d
+  | none => m
+
+/-- `rv = function(...)` has evaluated the arguments; `memo[key] = rv; return rv` -/
+def finishEval {Val : Type} (G : Graph Val) (v : Nat) :
+    Except Err (Memo Val × List Val × Work) → Except Err (Memo Val × Val × Work)
+  | .error e => .error e
+  | .ok (m2, vals, w) =>
+    let rv := G.combine v vals
+    .ok (m2.set v rv, rv, ⟨w.bodies + 1, w.calls + 1⟩)
+
 /-- `wrapper(obj, *args)` of `_memoize_default`:
 `if key in memo: return memo[key]`; else `memo[key] = default` (unless `_NO_DEFAULT`);
 `rv = function(...)`; `memo[key] = rv`; `return rv`. -/
@@ -210,15 +224,7 @@ def eval {Val : Type} (G : Graph Val) : Nat → Memo Val → Nat → Except Err 
     | none =>
       match fuel with
       | 0 => .error .fuel
-      | fuel' + 1 =>
-        let m1 := match G.default with
-          | some d => m.set v d
-          | none => m
-        match evalArgs (eval G fuel') m1 (G.deps v) with
-        | .error e => .error e
-        | .ok (m2, vals, w) =>
-          let rv := G.combine v vals
-          .ok (m2.set v rv, rv, ⟨w.bodies + 1, w.calls + 1⟩)
+      | fuel' + 1 => finishEval G v (evalArgs (eval G fuel') (storeDefault G m v) (G.deps v))
 
 /-- ask several roots one after the other on the same memo (one Script, several queries) -/
 def evalSeq {Val : Type} (G : Graph Val) (fuel : Nat) : Memo Val → List Nat → Except Err (Memo Val × List Val)
